@@ -311,6 +311,9 @@ def replay_file(pid, path):
     if line[1] == "grouping":
         import emit_props
         return emit_props.replay_grouping(pid, path)
+    if line[1] == "parse":
+        import parse_props
+        return parse_props.replay_parse(pid, line, path)
     if line[1] == "lower":
         import lower_props
         return lower_props.replay_lower(pid, line, path)
